@@ -410,9 +410,10 @@ pub fn show_gevents(f: &GFile) -> Vec<String> {
 // ---- generator ----
 
 fn gbytes(rng: &mut Rng, max: usize) -> Vec<u8> {
-    let n = match rng.below(10) {
-        0 => 0,
-        1 => rng.range(13, 20), // around the 15/16 TLF boundary (14 data bytes + 1 TLF byte = 15)
+    let n = match rng.below(40) {
+        0..=3 => 0,
+        4..=7 => rng.range(13, 20), // around the 15/16 TLF boundary (14 data bytes + 1 TLF byte = 15)
+        8 => rng.range(200, 300),   // three-nibble lengths
         _ => rng.below(max + 1),
     };
     (0..n).map(|_| if rng.chance(1, 4) { *rng.pick(&[0x00, 0x01, 0xff, 0x80, 0x7f]) } else { rng.byte() }).collect()
